@@ -30,13 +30,13 @@ func (c15) Describe() CheckInfo {
 		Rule: "seeded directory trees (5-60 nodes, depth <= 4; excluded names vendor/testdata/.x/_x at any depth; look-alikes vendor2/testdata_old; directories named x.go; non-Go files; dot- and underscore-named Go files; symlinks to files, directories, dangling and cyclic; a fifo named like a Go file; unparseable Go files inside excluded directories) x 1-5 arguments (relative, absolute, ./, trailing / and ..., a/../a respellings, '.', overlapping, duplicated, files named explicitly inside excluded directories, non-Go files named explicitly), with a non-idempotent patch so that double processing shows in the bytes. " +
 			"Reference: a walk written from the property text. Each case is run in-place and with --print-only, then again with the arguments permuted and respelled and the readdir order reshuffled. distinct = distinct (tree-shape hash, argument-form multiset)",
 		Assumptions: []string{
-			"cases the text leaves open are not generated: an excluded-name directory given as the argument itself, arguments that pass through a symlinked directory, nonexistent paths (C16); a symlink named directly as an argument (with or without /...) is generated and expected to contribute nothing ('no symlinks')",
+			"cases the text leaves open are not generated: an excluded-name directory given as (part of) the argument itself, nonexistent paths (C16); arguments that reach a file or directory through a symlinked directory are generated: the file is identified by its resolved path and processed once, and the output order must not depend on the order or spelling of the arguments; a symlink named directly as an argument (with or without /...) is generated and expected to contribute nothing ('no symlinks')",
 			"two hard-linked names of one inode are two files: each is processed once",
 			"'processed' is judged by effects (bytes, print-only segment, created/modified nodes), not by how often a file is read",
 		},
 		RealCode:       []string{"gopatch main()/mainCmd.Run, findFiles/findGoFiles, internal/*"},
 		Stubs:          []string{"package os (simulated filesystem incl. symlinks, fifo, shuffled readdir)", "path/filepath Walk re-hosted on the simulated os", "io/ioutil"},
-		RequiredProbes: []string{"excluded-dir-nested", "symlink-to-dir", "symlink-to-file", "dir-named-like-go-file", "overlapping-args", "duplicate-args", "explicit-file-in-excluded-dir", "dotdot-respelling", "absolute-arg", "non-go-file", "absolute-noncanonical-arg", "readdir-shuffled", "permuted-rerun", "dot-named-go-file", "hard-link", "non-directory-with-excluded-name", "symlink-argument", "unparseable-file-in-requested-set", "excluded-dir-named-like-go-file"},
+		RequiredProbes: []string{"excluded-dir-nested", "symlink-to-dir", "symlink-to-file", "dir-named-like-go-file", "overlapping-args", "duplicate-args", "explicit-file-in-excluded-dir", "dotdot-respelling", "absolute-arg", "non-go-file", "absolute-noncanonical-arg", "readdir-shuffled", "permuted-rerun", "dot-named-go-file", "hard-link", "non-directory-with-excluded-name", "symlink-argument", "unparseable-file-in-requested-set", "excluded-dir-named-like-go-file", "argument-through-symlinked-directory"},
 	}
 }
 
@@ -210,8 +210,52 @@ func (c15) Gen(env *Env, seed uint64, tier string, i int) *Case {
 		}
 		return true
 	}
+	// arguments that reach a file or directory THROUGH a symlinked directory
+	// (the last component is real): the same file may then be named under two
+	// different paths, and must still be processed once
+	type alias struct{ link, realDir string }
+	var aliases []alias
+	if len(symlinks) > 0 {
+		w := world.New(c.Spec)
+		for _, l := range symlinks {
+			if strings.HasSuffix(l, ".go") {
+				continue
+			}
+			if real, n := w.RealPath(l, true); n != nil && n.Kind == world.KDir && strings.HasPrefix(real+"/", ProjDir+"/") {
+				aliases = append(aliases, alias{l, real})
+			}
+		}
+	}
+	viaAlias := func(al alias, realPath string) string {
+		if realPath == al.realDir {
+			return ""
+		}
+		if !strings.HasPrefix(realPath, al.realDir+"/") {
+			return ""
+		}
+		return al.link + strings.TrimPrefix(realPath, al.realDir)
+	}
 	nargs := r.Range(1, 5)
 	for a := 0; a < nargs; a++ {
+		if len(aliases) > 0 && r.Chance(1, 4) {
+			al := aliases[r.Intn(len(aliases))]
+			var cands []string
+			for _, g := range gofiles {
+				if p := viaAlias(al, g); p != "" {
+					cands = append(cands, p)
+				}
+			}
+			for _, d := range dirs {
+				if p := viaAlias(al, d); p != "" && okDirArg(d) && okDirArg(path.Dir(al.link)) {
+					cands = append(cands, p)
+				}
+			}
+			if len(cands) > 0 {
+				c.Targets = append(c.Targets, cands[r.Intn(len(cands))])
+				c.Extra["alias_arg"] = "1"
+				continue
+			}
+		}
 		switch roll := r.Intn(100); {
 		case roll < 45:
 			d := dirs[r.Intn(len(dirs))]
@@ -343,8 +387,9 @@ func c15Reference(c *Case, w *world.World) []string {
 		if a == "" {
 			continue
 		}
-		p := path.Clean(a)
-		n := w.Peek(p)
+		// symbolic links in the directory part of an argument are resolved by the
+		// kernel; the last component is never followed
+		p, n := w.RealPath(path.Clean(a), false)
 		if n == nil {
 			continue
 		}
@@ -577,8 +622,40 @@ func (c15) Eval(env *Env, c *Case) []Violation {
 		}
 		out := string(r.Stdout)
 		if c.Flags.Verbose {
+			// -v log lines: "<absolute path as gopatch knows it>: patched"
+			var kept []string
+			for _, l := range strings.SplitAfter(out, "\n") {
+				if strings.HasPrefix(l, "/") && strings.HasSuffix(l, ": patched\n") {
+					continue
+				}
+				kept = append(kept, l)
+			}
+			out = strings.Join(kept, "")
+		}
+		if c.Extra["alias_arg"] == "1" && out != wantPrint.String() {
+			// with two names for one file "path order" is not defined by the text;
+			// require each requested file exactly once, in any order (the order must
+			// still be the same for every spelling: checked below)
+			rest := out
+			left := map[string]bool{}
 			for _, p := range expected {
-				out = strings.Replace(out, p+": patched\n", "", 1)
+				if len(wantFinal[p]) > 0 && p != brokenP {
+					left[p] = true
+				}
+			}
+			for progress := true; progress && len(rest) > 0; {
+				progress = false
+				for _, p := range expected {
+					if left[p] && strings.HasPrefix(rest, string(wantFinal[p])) {
+						rest = rest[len(wantFinal[p]):]
+						delete(left, p)
+						progress = true
+						break
+					}
+				}
+			}
+			if rest == "" && len(left) == 0 {
+				out = wantPrint.String()
 			}
 		}
 		if out != wantPrint.String() {
@@ -626,6 +703,12 @@ func (c15) Eval(env *Env, c *Case) []Violation {
 	qc.RebuildArgs()
 	r4 := env.Run(qc.Spec)
 	judgePrint(r4, "permuted")
+	if c.Extra["alias_arg"] == "1" {
+		env.Probe("argument-through-symlinked-directory")
+		if r2.Outcome == OutExit && r4.Outcome == OutExit && !c.Flags.Verbose && !bytes.Equal(r2.Stdout, r4.Stdout) {
+			add("print-order", "depends-on-argument-order", fmt.Sprintf("--print-only output differs between two spellings/orders of the same arguments (%v vs %v)", r2.W.Args, r4.W.Args))
+		}
+	}
 	if !env.Quiet {
 		env.Stats.Sample(map[string]interface{}{"args": c.Spec.Args, "permuted_args": qc.Spec.Args, "nodes": len(c.Spec.Nodes), "expected": expected}, 2)
 	}
